@@ -15,6 +15,7 @@ package connection
 //@   local bs param 0 0
 //@   local c recv 0 0
 //@   local count result 0 0
+//@   local err result 0 1
 //@   local msgType define 0 0 _ . ReadMessage ( )
 //@   requires c != nil && c.Conn != nil && disjoint(bs, c.bufferedMsg)
 //@   assigns c.bufferedMsg, elems(bs)
@@ -55,6 +56,8 @@ package connection
 //@ func (*WebsocketNetConn).Write props(C15,C07)
 //@   local bs param 0 0
 //@   local c recv 0 0
+//@   local count result 0 0
+//@   local err result 0 1
 //@   requires c != nil && c.Conn != nil
 //@   assigns nothing
 //@   ghost writes int = 0
